@@ -149,7 +149,7 @@ func (t *gfTr) text(n ast.Node) string {
 	return b.String()
 }
 
-var gf_leanKeywords = map[string]bool{"end": true, "from": true, "at": true, "then": true, "else": true, "if": true, "let": true, "fun": true, "do": true, "in": true, "have": true, "show": true, "open": true, "import": true, "def": true, "theorem": true, "match": true, "with": true, "where": true, "type": true, "Type": true, "max": true, "min": true, "instance": true, "structure": true, "namespace": true, "section": true, "variable": true, "prefix": true, "infix": true, "notation": true, "set_option": true, "private": true, "protected": true, "mutual": true, "partial": true, "unsafe": true, "macro": true, "syntax": true, "deriving": true, "extends": true, "class": true, "inductive": true, "example": true, "abbrev": true, "axiom": true, "by": true, "using": true, "return": true, "for": true, "unless": true, "try": true, "catch": true, "finally": true, "mut": true, "nomatch": true, "nofun": true, "calc": true, "exact": true, "value": false}
+var gf_leanKeywords = map[string]bool{"local": true, "scoped": true, "universe": true, "export": true, "attribute": true, "noncomputable": true, "omit": true, "include": true, "suffices": true, "obtain": true, "Prop": true, "Sort": true, "this": true, "termination_by": true, "decreasing_by": true, "infixl": true, "infixr": true, "postfix": true, "elab": true, "macro_rules": true, "initialize": true, "opaque": true, "rec": true, "some": true, "none": true, "true": true, "false": true, "not": true, "and": true, "or": true, "end": true, "from": true, "at": true, "then": true, "else": true, "if": true, "let": true, "fun": true, "do": true, "in": true, "have": true, "show": true, "open": true, "import": true, "def": true, "theorem": true, "match": true, "with": true, "where": true, "type": true, "Type": true, "max": true, "min": true, "instance": true, "structure": true, "namespace": true, "section": true, "variable": true, "prefix": true, "infix": true, "notation": true, "set_option": true, "private": true, "protected": true, "mutual": true, "partial": true, "unsafe": true, "macro": true, "syntax": true, "deriving": true, "extends": true, "class": true, "inductive": true, "example": true, "abbrev": true, "axiom": true, "by": true, "using": true, "return": true, "for": true, "unless": true, "try": true, "catch": true, "finally": true, "mut": true, "nomatch": true, "nofun": true, "calc": true, "exact": true, "value": false}
 
 func (t *gfTr) fresh(base string) string {
 	re := regexp.MustCompile(`[^A-Za-z0-9]+`)
